@@ -1,6 +1,6 @@
 CHECK = dict(
     level="exploration",
-    level_text="Generated-input search. rapid draws (transport in {UDP, TCP, DoT, DoH POST/GET, DoQ, DNSCrypt-UDP, DNSCrypt-TCP}) x configured UDP maximum x request EDNS settings (OPT absent / any UDP size / DO / version / padding / keep-alive / NSID / EXPIRE / cookie / ECS / local option) x handler response (0..~72 KiB, any mix of sections, with or without its own OPT, pre-set TC, pre-existing padding), with the response size steered to within a few octets of the applicable limit in 40% of the cases; each query is packed and run through the real per-transport serving function of an unstarted server into a recording connection, and the oracle (size inequality, TC/empty-answer, OPT echo, padding and keep-alive predicates) is evaluated on the bytes written. A second, bounded-exhaustive run enumerates (advertised size or none) x configured maximum over 22 edge values with responses of exactly limit-1..limit+2 octets on both UDP paths. Handler behaviour is drawn too: passes the request on / a deep copy of it / a foreign request (judged against the client's query where the transport reads it itself: DoQ, DNSCrypt; request-dependent clauses undecided on UDP/TCP/DoT/DoH, whose writers only know the request the handler passes) / fails without writing with one of eleven error classes (generic, cancelled, timeout-like context/os/net errors, wrapped and joined forms; half of these cases with the query padded to within a few octets of 512 or up to ~1100 octets) so that the server's own SERVFAIL, with or without its extended error, is judged / stays silent; queries the server answers itself (NOTIMP, FORMERR, ignored non-query) are included. Where the doc comments decide (padAnswer: pad 1..31 octets on DoT/DoH/DoQ when asked; addTCPKeepAlive: one keep-alive with the idle timeout in 100 ms units on TCP/DoT when asked) presence and value are checked as well. A sequence part runs histories of 2-6 queries (with near-miss steps: one component changed) against servers that dispose of responses into one production dnsmsg.Cloner and answer from stored messages through it; a concurrent part puts 2-4 such queries in flight on one TCP/DoT connection, UDP socket, or as parallel DoH/DoQ/DNSCrypt requests, matched by message ID, also under the race detector (schedules sampled). A stack unit puts real UDP, TCP and DoT servers on loopback in front of ratelimitmw + ecscache + a large-answer upstream and judges the datagram or frame a socket client receives (size limit, TC, OPT echo, keep-alive and padding only when asked / on DoT), first ask and cache hit. Held on N cases is evidence, not proof.",
+    level_text="Generated-input search. rapid draws (transport in {UDP, TCP, DoT, DoH POST/GET, DoQ, DNSCrypt-UDP, DNSCrypt-TCP}) x configured UDP maximum x request EDNS settings (OPT absent / any UDP size / DO / version / padding / keep-alive / NSID / EXPIRE / cookie / ECS / local option) x handler response (0..~72 KiB, any mix of sections, with or without its own OPT, pre-set TC, pre-existing padding), with the response size steered to within a few octets of the applicable limit in 40% of the cases; each query is packed and run through the real per-transport serving function of an unstarted server into a recording connection, and the oracle (size inequality, TC/empty-answer, OPT echo, padding and keep-alive predicates) is evaluated on the bytes written. A second, bounded-exhaustive run enumerates (advertised size or none) x configured maximum over 22 edge values with responses of exactly limit-1..limit+2 octets on both UDP paths. Handler behaviour is drawn too: passes the request on / a deep copy of it / a foreign request (judged against the client's query where the transport reads it itself: DoQ, DNSCrypt; request-dependent clauses undecided on UDP/TCP/DoT/DoH, whose writers only know the request the handler passes) / fails without writing with one of eleven error classes (generic, cancelled, timeout-like context/os/net errors, wrapped and joined forms; half of these cases with the query padded to within a few octets of 512 or up to ~1100 octets) the error wrapped in 0..7 realistic annotations (0..~450 octets of text), with long names (243..255 octets) and small advertised sizes favoured, so that the server's own SERVFAIL, with or without its extended error, is judged / stays silent; queries the server answers itself (NOTIMP, FORMERR, ignored non-query) are included. Where the doc comments decide (padAnswer: pad 1..31 octets on DoT/DoH/DoQ when asked; addTCPKeepAlive: one keep-alive with the idle timeout in 100 ms units on TCP/DoT when asked) presence and value are checked as well. A sequence part runs histories of 2-6 queries (with near-miss steps: one component changed) against servers that dispose of responses into one production dnsmsg.Cloner and answer from stored messages through it; a concurrent part puts 2-4 such queries in flight on one TCP/DoT connection, UDP socket, or as parallel DoH/DoQ/DNSCrypt requests, matched by message ID, also under the race detector (schedules sampled). A stack unit puts real UDP, TCP and DoT servers on loopback in front of ratelimitmw + ecscache + a large-answer upstream and judges the datagram or frame a socket client receives (size limit, TC, OPT echo, keep-alive and padding only when asked / on DoT), first ask and cache hit. A stack part (unit stack, run options) puts ratelimitmw + the ECS cache, shared by a plain and a DoT server on loopback, in front of a scripted upstream whose answer OPT holds a drawn sequence of EDE / keep-alive / padding / NSID / cookie / subnet / local options (or which fails with a long timeout error), and lets 2-3 clients with different EDNS settings ask the same fresh name in turn (later ones from the cache); each response is judged against the asking client's own query. Held on N cases is evidence, not proof.",
     level_note="Observed at the connection handed to the server (net.PacketConn / net.Conn / quic.Stream / http.ResponseWriter / dnscrypt.ResponseWriter), not on a socket: kernel, TLS, QUIC and DNSCrypt framing are outside. For DNSCrypt the size is that of the message given to the DNSCrypt library (which packs it as is and may only shrink it further).",
     technique="property-based testing (rapid): generated (transport, cap, request, response) tuples through the real write paths vs a size inequality and EDNS predicates; bounded-exhaustive limit grid",
     assumptions=[
@@ -23,6 +23,7 @@ CHECK = dict(
         dict(name="stack", dir="internal/dnssvc", src="C08/stack", runs=[
             dict(name="udp-limit", run="^TestVerifC08Stack$", quick=400, thorough=20000, shards_thorough=4),
             dict(name="stream", run="^TestVerifC08StackStream$", quick=300, thorough=12000, shards_thorough=4),
+            dict(name="options", run="^TestVerifC08StackOptions$", quick=600, thorough=24000, shards_thorough=4),
         ]),
         dict(name="cmd", dir="internal/cmd", src="C08/cmd", runs=[
             dict(name="dns-config", run="^TestVerifC08CmdDNS$", quick=300, thorough=12000, shards_quick=2, shards_thorough=6),
